@@ -13,7 +13,7 @@ import (
 )
 
 func init() {
-	register("C19", "Decides, for the run methods of canary.{pause,validate,fail}Options, pause.pauseOptions and freeze.freezeOptions: (R1) exactly one API write site is reachable, of the documented verb and kind (Patch of the ExtendedDaemonSet; Status().Update of the replica set for fail), not in a loop, and no other kubectl-eds code writes to the API; (R2) the written object is DeepCopy() of the object read by Get with the user's namespace/name (for fail: of the replica set named by status.canary.replicaSet of that object, same namespace), the read object is never modified, the patch base is MergeFrom(read object), the copy is modified only by creating the annotation map and by annotation writes whose final key/value set on every path to the write is one of the command's documented tables (validate: canary-valid = status.canary.replicaSet of the object read; fail: one append to Status.Conditions of a condition whose constructor puts type Canary-Failed and status True), and the table written is the one of the command word that the cobra constructor binds to the mode field tested on that path; (R3) the write is dominated by the canary precondition (status.canary != nil, plus spec.strategy.canary != nil for pause/fail; status.canary == nil for rolling-update pause and freeze); (R4) every annotation key written is looked up by a function reachable from the controllers' Reconcile, the reader compares with a constant the writer writes (or, for canary-valid, with a name parameter), and the condition type/status written by fail are the constants the controller's failed-reader tests.", runC19)
+	register("C19", "Decides, for the run methods of canary.{pause,validate,fail}Options, pause.pauseOptions and freeze.freezeOptions: (R1) exactly one API write site is reachable, of the documented verb and kind (Patch of the ExtendedDaemonSet; Status().Update of the replica set for fail), not in a loop, and no other kubectl-eds code writes to the API; (R2) the written object is DeepCopy() of the object read by Get with the user's namespace/name (for fail: of the replica set named by status.canary.replicaSet of that object, same namespace), the read object is never modified, the patch base is MergeFrom(read object), the copy is modified only by creating the annotation map and by annotation writes whose final key/value set on every path to the write is one of the command's documented tables (validate: canary-valid = status.canary.replicaSet of the object read; fail: one append to Status.Conditions of a condition whose constructor puts type Canary-Failed and status True), and the table written is the one of the command word that the cobra constructor binds to the mode field tested on that path; (R3) the write is dominated by the canary precondition (status.canary != nil, plus spec.strategy.canary != nil for pause/fail; status.canary == nil for rolling-update pause and freeze); (R4) every annotation key written is looked up by a function reachable from the controllers' Reconcile, the reader compares with a constant the writer writes (or, for canary-valid, with a name parameter), and the condition type/status written by fail are the constants the controller's failed-reader tests; (R5) reader side of validate: status.activeReplicaSet comes from one decision function, and on every path of it on which IsCanaryDeploymentValid(daemonset annotations, up-to-date replica set name) is true the up-to-date replica set is returned (no pause/fail/time condition can mask a validation); (R6) reader side of unpause: Result.IsUnpaused is stored only from IsCanaryDeploymentUnpaused applied to the parent's annotations, every store IsPaused=true reachable from the canary strategy is under the must-fact IsUnpaused=false of the same Result (an unpaused canary is not re-paused by the per-pod evaluation), IsPaused is otherwise stored only from the persisted reader, and a store IsPaused=false under IsUnpaused=true exists.", runC19)
 }
 
 type c19Cmd struct {
@@ -45,6 +45,10 @@ func runC19(r *Run) {
 	r.Floor("C19.R2", 30)
 	r.Floor("C19.R3", 7)
 	r.Floor("C19.R4", 7)
+	r.RuleDoc("C19.R5", "reader side of validate: every path of the promotion decision with canary-valid true returns the up-to-date replica set")
+	r.RuleDoc("C19.R6", "reader side of unpause: IsUnpaused is the canary-unpaused reader on the parent's annotations; IsPaused=true is stored only under IsUnpaused=false; the unpause reset exists")
+	r.Floor("C19.R5", 3)
+	r.Floor("C19.R6", 4)
 	r.NotCovered("what the controller does in the following reconciles (C05/C07/C08 decide the reader side structurally); the 'already in that state' refusals (dropping one only makes the command rewrite the same value); how complete() fills the user's namespace/name; a pre-existing Canary-Failed condition with status False on the canary replica set (fail appends a second condition, the reader takes the first); concurrent changes between the Get and the write")
 
 	pausedK := c19Const(r, "ExtendedDaemonSetCanaryPausedAnnotationKey")
@@ -105,6 +109,8 @@ func runC19(r *Run) {
 	wantT, _ := r.Prog.constStr(pkgAPI, "ConditionTypeCanaryFailed")
 	wantS, _ := r.Prog.constStr(pkgCoreV1, "ConditionTrue")
 	c19Wire(r, cmds, &c19CondWrite{typ: wantT, status: wantS})
+	c19ValidateReader(r)
+	c19UnpauseReader(r)
 }
 
 // c19CondWrite is what the fail command appends.
@@ -1086,4 +1092,145 @@ func c19Wire(r *Run, cmds []*c19Cmd, cw *c19CondWrite) {
 		}
 	}
 	r.Check("C19.R4", "reader of the failed condition: status", r.Prog.Pos(isTrue.Pos()), shortFunc(isTrue), fmt.Sprintf("the condition reader tests Status == %q, the status fail writes", cw.status), cmp, "")
+}
+
+// ---------------------------------------------------------------------------------------------
+// R5: reader side of validate
+
+func c19ValidateReader(r *Run) {
+	site := findDecision(r, "C19.R5")
+	if site == nil {
+		return
+	}
+	if !assignRoles(r, "C19.R5", site) {
+		return
+	}
+	fn := site.decision
+	paths, _, ok := funcPaths(fn, 5000)
+	r.paths += len(paths)
+	if !ok {
+		r.Undecided("C19.R5", "validate table", r.Prog.Pos(fn.Pos()), shortFunc(fn), "path cap exceeded")
+		return
+	}
+	utd, act := site.roles["upToDate"], site.roles["active"]
+	n := 0
+	var allNotes []string
+	for _, p := range paths {
+		var notes []string
+		a := c05Classify(site, p, &notes)
+		allNotes = append(allNotes, notes...)
+		if !is(a.valid, true) {
+			continue
+		}
+		n++
+		ret := returnOf(p.Blocks[len(p.Blocks)-1])
+		res := unwrap(p.Resolve(ret.Results[0]))
+		good := res == ssa.Value(utd) || res == ssa.Value(act) && is(a.eqActive, true)
+		what := "the up-to-date replica set"
+		if !good {
+			what = "the active replica set (the validation is ignored)"
+			if res != ssa.Value(act) {
+				what = res.String()
+			}
+		}
+		r.Check("C19.R5", "return on path ["+describeAtoms(a)+"]", r.Prog.Pos(instrPos(ret)), shortFunc(fn),
+			"when the canary-valid annotation names the up-to-date replica set, that replica set becomes the active one whatever the pause/fail/time state", good, "returns "+what)
+	}
+	if n == 0 {
+		r.Check("C19.R5", "validate table", r.Prog.Pos(fn.Pos()), shortFunc(fn), "the promotion decision branches on IsCanaryDeploymentValid(daemonset annotations, up-to-date replica set name)", false,
+			"no path carries the fact canary-valid=true; "+strings.Join(allNotes, "; "))
+	}
+}
+
+// ---------------------------------------------------------------------------------------------
+// R6: reader side of unpause
+
+func c19UnpauseReader(r *Run) {
+	_, reach := c06CanaryEntry(r)
+	if reach == nil {
+		return
+	}
+	// (a) the source of IsUnpaused
+	nSrc := 0
+	unpausedWriters := map[*ssa.Function]bool{}
+	for _, fn := range repoFuncs(r.Prog) {
+		for _, st := range storesToFieldOf(fn, pkgStrategy, "Result", "IsUnpaused") {
+			nSrc++
+			unpausedWriters[fn] = true
+			call, ok := stripConv(st.Val).(*ssa.Call)
+			good := ok && calleeName(&call.Call) == pkgEDS+".IsCanaryDeploymentUnpaused"
+			detail := "stored from " + describeVal(st.Val)
+			if good && !c06IsParentAnnotations(r, fn, call.Call.Args[0]) {
+				good, detail = false, "the reader is not applied to the parent ExtendedDaemonSet's annotations"
+			}
+			r.Check("C19.R6", "store IsUnpaused", r.Prog.Pos(instrPos(st)), shortFunc(fn), "IsUnpaused is the canary-unpaused annotation reader applied to the parent's annotations", good, detail)
+		}
+	}
+	if nSrc == 0 {
+		r.Check("C19.R6", "store IsUnpaused", "-", "-", "IsUnpaused is read from the canary-unpaused annotation", false, "no store to Result.IsUnpaused")
+	}
+	// (b) stores to IsPaused reachable from the canary strategy
+	nPause, nReset := 0, 0
+	for _, fn := range sortedFuncs(reach) {
+		sts := storesToFieldOf(fn, pkgStrategy, "Result", "IsPaused")
+		if len(sts) == 0 {
+			continue
+		}
+		ff := computeFacts(fn)
+		for i, st := range sts {
+			pos := r.Prog.Pos(instrPos(st))
+			root, _ := accessPath(st.Addr)
+			flagFact := func(pol bool) bool {
+				return ff.Holds(st.Block(), pol, func(v ssa.Value, _ string) bool {
+					if !isLoadOfField(v, pkgStrategy, "Result", "IsUnpaused") {
+						return false
+					}
+					lr, _ := accessPath(v)
+					return lr == root
+				})
+			}
+			b, isC := constBool(st.Val)
+			switch {
+			case isC && b:
+				nPause++
+				reason := c06ReasonInBlock(st, "PausedReason")
+				construct := "store IsPaused=true [reason " + reason + "]"
+				if reason == "?" {
+					construct = fmt.Sprintf("store IsPaused=true #%d", i+1)
+				}
+				good := flagFact(false) && !unpausedWriters[fn]
+				detail := "under IsUnpaused=false of the same Result"
+				if !good {
+					detail = "IsUnpaused=false is not established where the canary is paused: a manually unpaused canary is paused again on the next sync; must-facts: " + shortSet(ff.At(st.Block()))
+					if unpausedWriters[fn] {
+						detail = "IsUnpaused is written in the same function; the fact cannot be relied on"
+					}
+				}
+				r.Check("C19.R6", construct, pos, shortFunc(fn), "the per-pod evaluation pauses the canary only when it was not manually unpaused (canary-unpaused annotation)", good, detail)
+			case isC && !b:
+				if flagFact(true) {
+					nReset++
+					r.Check("C19.R6", "store IsPaused=false under IsUnpaused", pos, shortFunc(fn), "the manual unpause clears the paused flag", true, "")
+				} else {
+					o := r.Check("C19.R6", fmt.Sprintf("store IsPaused=false #%d", i+1), pos, shortFunc(fn), "clearing the paused flag is always allowed here", true, "")
+					o.Trivial = true
+				}
+			default:
+				ex, isEx := stripConv(st.Val).(*ssa.Extract)
+				var call *ssa.Call
+				if isEx {
+					call, _ = ex.Tuple.(*ssa.Call)
+				}
+				good := call != nil && calleeName(&call.Call) == pkgEDS+".IsCanaryDeploymentPaused" && ex.Index == 0
+				o := r.Check("C19.R6", "store IsPaused=persisted state", pos, shortFunc(fn), "IsPaused is otherwise only initialised from the persisted paused reader", good, "stored from "+describeVal(st.Val))
+				o.Trivial = good
+			}
+		}
+	}
+	if nPause == 0 {
+		r.Check("C19.R6", "store IsPaused=true", "-", "-", "the canary strategy has an auto-pause store", false, "none found")
+	}
+	if nReset == 0 {
+		r.Check("C19.R6", "store IsPaused=false under IsUnpaused", "-", "-", "somewhere in the canary strategy IsUnpaused=true clears IsPaused (canary unpause returns to state Canary)", false, "no store IsPaused=false under the must-fact IsUnpaused=true")
+	}
 }
